@@ -123,6 +123,13 @@ def cantera_expected(arr, names, recipe, species=None, reactions=None, pressure=
     return out
 
 
+def recipe_path(ctx, kind):
+    """every user recipe of a run is a file called `recipe.py` (in its own fresh directory): what one process cooks one after
+    the other has the same module name and different contents"""
+    d = ctx.newdir("c11rec_"); os.makedirs(d)
+    return os.path.join(d, "recipe.py")
+
+
 LAST = []      # the previous thermochemical cook of this process (module state of the tool survives between Chef objects)
 
 
@@ -149,22 +156,22 @@ def run_case(ctx, rep, spec, recipe, kept, serial, model, start=None, species=No
     a, b = list(names)[0], list(names)[-1]
     kw = {}
     if recipe == "rec1":
-        rp = os.path.join(ctx.scratch, f"rec1_{ctx._n}.py"); open(rp, "w").write(REC1 % a)
+        rp = recipe_path(ctx, "rec1"); open(rp, "w").write(REC1 % a)
         rec, new_names = rp, ["dbl"]
         fn = lambda arr: (arr[..., names[a]] * 2)[..., None]
     elif recipe == "rec2":
-        rp = os.path.join(ctx.scratch, f"rec2_{ctx._n}.py"); open(rp, "w").write(REC2 % (a, b))
+        rp = recipe_path(ctx, "rec2"); open(rp, "w").write(REC2 % (a, b))
         rec, new_names = rp, ["sum", "diff"]
         fn = lambda arr: np.stack([arr[..., names[a]] + arr[..., names[b]], arr[..., names[a]] - arr[..., names[b]]], axis=-1)
     elif recipe.startswith("rec4"):
         # a recipe whose result is not float64 (a mask, a bin index, single precision)
         nm4, expr, f4 = REC4_FORMS[int(recipe[4:] or 0)]
-        rp = os.path.join(ctx.scratch, f"rec4_{ctx._n}.py"); open(rp, "w").write(REC4 % (nm4, a, expr))
+        rp = recipe_path(ctx, "rec4"); open(rp, "w").write(REC4 % (nm4, a, expr))
         rec, new_names = rp, [nm4]
         fn = lambda arr: f4(arr[..., names[a]])[..., None]
     elif recipe == "rec5":
         # the names of the components one per line in the docstring
-        rp = os.path.join(ctx.scratch, f"rec5_{ctx._n}.py"); open(rp, "w").write(REC5 % (a, b))
+        rp = recipe_path(ctx, "rec5"); open(rp, "w").write(REC5 % (a, b))
         rec, new_names = rp, ["mom_a", "mom_b", "mom_ab"]
         fn = lambda arr: np.stack([arr[..., names[a]] * 2, arr[..., names[b]] * 3, arr[..., names[a]] * arr[..., names[b]]], axis=-1)
     elif recipe == "callable":
